@@ -300,7 +300,14 @@ void mon_call_ret(proc *pr, int64_t ret)
         }
         break; }
     case OP_YIELD:
-        if (ret == CMB_PROCESS_SUCCESS) viol("C04", "spurious-success/yield", "process %d: yield returned success at t=%g, nobody resumed it with that value", pr->id, now);
+        if (ret == CMB_PROCESS_SUCCESS) {
+            bool ok = false;
+            for (int i = 0; i < pr->ncs && !ok; i++) {
+                cause *c = &pr->cs[i];
+                if (c->kind == CK_RESUME && c->value == CMB_PROCESS_SUCCESS && c->state == CS_ARMED && c->due == now) { c->state = CS_DELIVERED; ok = true; }
+            }
+            if (!ok) viol("C04", "spurious-success/yield", "process %d: yield returned success at t=%g, nobody resumed it with that value", pr->id, now);
+        }
         else match_cause(pr, ret, 0, 0);
         break;
     case OP_WAITP:
